@@ -81,6 +81,11 @@ def make_client(spec, idx, ns_extra=None):
             deep=types.SimpleNamespace(er=types.SimpleNamespace(h=lambda x, _k=k: x - _k)),
         ),
     )
+    from formulae.categorical import Sum, Treatment
+
+    # encoding instances owned (and reused across designs) by the caller
+    ns["tr0"] = Treatment()
+    ns["sm0"] = Sum()
     exec(compile(CLIENT_SRC, f"<client{idx}>", "exec"), ns)
     extra = spec.get("extra")
     extra = None if extra is None else dict(extra)
